@@ -14,6 +14,9 @@
   * `_handle_reset_stream_frame` from "# process reset" on    (`deliverReset`)
   * `_get_or_create_stream` refusing a stream whose state was discarded
     (`StreamFinishedError`, swallowed by `_payload_received`)  (`discardRecv`)
+  * `_get_or_create_stream_for_send` refusing a discarded stream id
+    (`ValueError`, "fix: refuse to send on a stream whose state was already
+    discarded")                                              (`discardSend`)
   * the delivery handlers registered by `start_frame`
     (`on_data_delivery`, `on_reset_delivery`)                 (`ackFrame`, `loseFrame`, …)
 
@@ -153,6 +156,9 @@ structure Sys where
   recv : Recv := {}
   /-- receiving endpoint: `id in conn._streams_finished` -/
   recvGone : Bool := false
+  /-- sending endpoint: `id in conn._streams_finished` (the QuicStream object was
+      discarded: `send_stream_data` / `reset_stream` raise ValueError) -/
+  sendGone : Bool := false
   /-- ghost: every STREAM frame ever emitted, in emission order -/
   wire : List OutFrame := []
   /-- ghost: final sizes of the RESET_STREAM frames ever emitted -/
@@ -181,6 +187,7 @@ inductive Op where
   | ackReset
   | loseReset
   | discardRecv
+  | discardSend
 deriving Repr, DecidableEq
 
 /-- what one step showed -/
@@ -202,10 +209,12 @@ def evCount (e : Option DataEv) : Nat := if evEnd e then 1 else 0
 
 def step (s : Sys) : Op → Sys × Out
   | .appWrite data fin =>
+    if s.sendGone then (s, .err (.py .value)) else
     match write s.send data fin with
     | .ok s' => ({ s with send := s', ghost := s.ghost.onWrite data fin }, .done)
     | .error e => (s, .err e)
   | .appReset code =>
+    if s.sendGone then (s, .err (.py .value)) else
     ({ s with send := reset s.send code, ghost := { s.ghost with reset := true } }, .done)
   | .emit space maxOffset =>
     if s.send.resetPending = true ∨ s.send.bufferIsEmpty = true then (s, .skipped) else
@@ -262,6 +271,10 @@ def step (s : Sys) : Op → Sys × Out
     ({ s with send := onResetDelivery s.send .lost, ghost := s.ghost.onResetDelivery .lost }, .done)
   | .discardRecv =>
     if s.recv.finished then ({ s with recvGone := true }, .done) else (s, .skipped)
+  | .discardSend =>
+    -- enabled by the connection when `stream.is_finished` (both halves of the
+    -- sending endpoint's stream object, see AQ.StreamTable.serveOne)
+    ({ s with sendGone := true }, .done)
 
 def run (s : Sys) (ops : List Op) : Sys := ops.foldl (fun s op => (step s op).1) s
 
